@@ -41,6 +41,9 @@ func loadWorld() *World {
 			w.funcs[shortFuncName(fn.String())] = fn
 		}
 	}
+	if u := os.Getenv("MQVC_UNROLL"); u != "" {
+		fmt.Sscan(u, &w.unroll)
+	}
 	w.contracts, err = readContracts(repoDir + "/contracts_verif.go")
 	if err != nil {
 		fatal("contracts: %v", err)
@@ -129,7 +132,7 @@ func main() {
 				fatal("no function %q", name)
 			}
 			vc := w.buildVC(fn)
-			fmt.Print(vc.script(10000))
+			fmt.Print(vc.script(os.Getenv("MQVC_RELAXED") != ""))
 			for _, u := range vc.unsup {
 				fmt.Println("; UNSUPPORTED:", u)
 			}
@@ -168,6 +171,20 @@ func main() {
 		if bad > 0 {
 			os.Exit(1)
 		}
+	case "standalone":
+		// mqvc standalone <func> <obligation>: print the self-contained query
+		w := loadWorld()
+		if p := os.Getenv("MQVC_PROP"); p != "" {
+			w.prop = p
+		}
+		vc := w.buildVC(w.funcs[os.Args[2]])
+		for _, ob := range vc.obligations() {
+			if ob.Name == os.Args[3] {
+				fmt.Print(vc.standalone(ob, os.Getenv("MQVC_RELAXED") != "", nil))
+				return
+			}
+		}
+		fatal("no such obligation")
 	case "check":
 		os.Exit(runCheck(os.Args[2:]))
 	default:
